@@ -154,6 +154,8 @@ def _clone(v, memo):
         n.closure_env = _clone(v.closure_env, memo)
         n.bound = _clone(v.bound, memo)
         return n
+    if hasattr(v, 'py_clone'):
+        return v.py_clone(memo, _clone)
     if isinstance(v, PyDict):
         n = PyDict(v.tag)
         memo[i] = n
@@ -161,6 +163,7 @@ def _clone(v, memo):
         n.default_mk = v.default_mk
         n.has = v.has
         n.version = v.version
+        n.sym_items = [(k, _clone(x, memo)) for k, x in v.sym_items]
         return n
     return v
 
@@ -175,6 +178,7 @@ class PyDict:
         self.default_mk = None
         self.has = None
         self.version = 0
+        self.sym_items = []     # (symbolic key, value) pairs, by identity
 
 
 class LoopSpec:
@@ -891,6 +895,27 @@ class Exec:
                         self.replace_list_content(tgt.value, o, v, st1, fi)
                         yield st1
                         continue
+                    if isinstance(o, TokList) and isinstance(v, TokList) \
+                            and not v.segs:
+                        # x[a:b] = []  -- removal of a range, in place
+                        for st2, lo in (self.ev(sl.lower, st1, fi)
+                                        if sl.lower else [(st1, 0)]):
+                            for st3, hi in (self.ev(sl.upper, st2, fi)
+                                            if sl.upper else
+                                            [(st2, o.length())]):
+                                n = o.length()
+                                a = sym.clamp_index(lo, n)
+                                b = sym.clamp_index(hi, n)
+                                cut = sym.imax(zint(b) - zint(a), 0)
+                                tmp = TokList(list(o.segs))
+                                self.normalise(tmp, st3)
+                                sg = tmp.segs[0]
+                                o.segs[:] = [Many(zint(n) - zint(cut), sg.mk,
+                                                  False, 'cut')]
+                                st3.mut += 1
+                                st3.writes.append((o.lid, '$list'))
+                                yield st3
+                        continue
                     raise Unsupported('slice store at %d' % tgt.lineno)
                 for st2, i in self.ev(tgt.slice, st1, fi):
                     self.store_item(o, i, v, st2, tgt.lineno)
@@ -937,6 +962,10 @@ class Exec:
         st.writes.append((o.oid, attr))
 
     def store_item(self, o, i, v, st, line):
+        if hasattr(o, 'py_setitem'):
+            o.py_setitem(self, st, i, v, line)
+            st.mut += 1
+            return
         if isinstance(o, TokList):
             self.list_set(o, i, v, st, line)
             st.mut += 1
@@ -1345,6 +1374,8 @@ class Exec:
             raise Unsupported('attribute %s of %r at %d' % (attr, o, line))
         if is_str(o) or isinstance(o, (SSeq, TokList, PyDict, tuple)):
             return ('$method', o, attr)
+        if hasattr(o, 'py_method'):
+            return ('$pymethod', o, attr)
         if o is None:
             self.prove(st, 'safe:none-deref@%d' % line, False, line)
             st.assume(False)
@@ -1477,6 +1508,10 @@ class Exec:
                 for s2, kv in self.ev(k, s1, fi):
                     for s3, vv in self.ev(v, s2, fi):
                         if not (isinstance(kv, str) or kv is None):
+                            if isinstance(kv, SSeq):
+                                d.sym_items.append((kv, vv))
+                                nxt.append(s3)
+                                continue
                             raise Unsupported('dict literal key')
                         d.items[kv] = vv
                         nxt.append(s3)
@@ -1508,6 +1543,10 @@ class Exec:
             return r if isinstance(op, ast.Eq) else Not(r)
         if is_str(a) and is_str(b):
             return self.str_order(op, a, b, st, line)
+        if hasattr(a, 'py_int'):
+            a = a.py_int(self, st, line, 'compare')
+        if hasattr(b, 'py_int'):
+            b = b.py_int(self, st, line, 'compare')
         if not (is_int(a) or is_bool(a)) or not (is_int(b) or is_bool(b)):
             raise Unsupported('ordering of %r and %r at %d' % (a, b, line))
         if isinstance(a, int) and isinstance(b, int):
@@ -1628,6 +1667,8 @@ class Exec:
 
     def contains(self, coll, x, st, line):
         """x in coll"""
+        if hasattr(coll, 'py_contains'):
+            return coll.py_contains(self, st, x, line)
         if isinstance(coll, str) and isinstance(x, str):
             return x in coll
         if is_str(coll) and is_str(x):
@@ -1662,7 +1703,9 @@ class Exec:
                 r = hook(self, st, coll, x, line)
                 if r is not NotImplemented:
                     return r
-            raise Unsupported('membership in summarised list at %d' % line)
+            b = fresh_bool('member')
+            st.assume(Implies(zint(coll.length()) == 0, Not(b)))
+            return b
         if isinstance(coll, StrSet):
             return coll.member(self, st, x)
         if isinstance(coll, PyDict):
@@ -1687,6 +1730,20 @@ class Exec:
                 yield st2, self.binop(node.op, a, b, st2, node.lineno)
 
     def binop(self, op, a, b, st, line):
+        if isinstance(a, OptVal):
+            self.prove(st, 'safe:none-operand@%d' % line, Not(a.isnone), line)
+            a = a.val
+        if isinstance(b, OptVal):
+            self.prove(st, 'safe:none-operand@%d' % line, Not(b.isnone), line)
+            b = b.val
+        if hasattr(a, 'py_int') or hasattr(b, 'py_int'):
+            other = b if hasattr(a, 'py_int') else a
+            if is_str(other) and not isinstance(op, ast.Mult):
+                a = a.py_str(self, st, line) if hasattr(a, 'py_str') else a
+                b = b.py_str(self, st, line) if hasattr(b, 'py_str') else b
+            else:
+                a = a.py_int(self, st, line) if hasattr(a, 'py_int') else a
+                b = b.py_int(self, st, line) if hasattr(b, 'py_int') else b
         if isinstance(op, ast.Add):
             if is_str(a) and is_str(b):
                 return sym.seq_concat(a, b)
@@ -1806,6 +1863,10 @@ class Exec:
         return TokList([Many(ln, mk, fresh, 'slice')])
 
     def index(self, o, i, st, line):
+        if hasattr(i, 'py_int'):
+            i = i.py_int(self, st, line, 'as-index')
+        if hasattr(o, 'py_index'):
+            return o.py_index(self, st, i, line)
         if isinstance(o, Opt):
             self.prove(st, 'safe:none-deref@%d' % line, Not(o.isnone), line)
             o = o.obj
@@ -1851,6 +1912,9 @@ class Exec:
         raise Unsupported('subscript of %r at %d' % (o, line))
 
     def dict_get(self, d, k, st, line, check=True):
+        for kk, vv in d.sym_items:
+            if kk is k:
+                return vv
         if (isinstance(k, str) or k is None) and k in d.items:
             return d.items[k]
         if isinstance(k, SSeq) and k.conc is not None and k.conc in d.items:
@@ -1913,6 +1977,8 @@ class Exec:
             return v.data['truth']
         if hasattr(v, 'truth_value'):
             return v.truth_value(self, st)
+        if hasattr(v, 'py_truth'):
+            return v.py_truth(self, st)
         raise Unsupported('truth value of %r at %d' % (v, line))
 
     # ----------------------------------------------------------------- calls
